@@ -123,6 +123,12 @@ fn head_bytes(data: &[u8]) -> &[u8] {
     data.get(..end).unwrap_or(data)
 }
 
+/// Optional whitespace around header and cookie values is ASCII (RFC 7230 OWS); Unicode
+/// white space such as U+00A0 is part of the value.
+fn trim_ascii_ws(s: &str) -> &str {
+    s.trim_matches(|c: char| c.is_ascii_whitespace())
+}
+
 impl Http1Parser {
     pub fn new() -> Self {
         Self { config: Http1Config::default() }
@@ -372,7 +378,7 @@ impl Http1Parser {
                 let name = line[..colon_pos].trim().to_string();
                 let value = line
                     .get(colon_pos.saturating_add(1)..)
-                    .map(|v| v.trim().to_string());
+                    .map(|v| trim_ascii_ws(v).to_string());
 
                 if name.is_empty() {
                     has_malformed = true;
@@ -422,18 +428,15 @@ impl Http1Parser {
         let mut position = 0;
 
         for cookie_str in cookie_header.split(';') {
-            let cookie_str = cookie_str.trim();
+            let cookie_str = trim_ascii_ws(cookie_str);
             if cookie_str.is_empty() {
                 continue;
             }
 
             if let Some(eq_pos) = cookie_str.find('=') {
-                let name = cookie_str[..eq_pos].trim().to_string();
+                let name = trim_ascii_ws(&cookie_str[..eq_pos]).to_string();
                 let value = Some(
-                    cookie_str
-                        .get(eq_pos.saturating_add(1)..)
-                        .unwrap_or("")
-                        .trim()
+                    trim_ascii_ws(cookie_str.get(eq_pos.saturating_add(1)..).unwrap_or(""))
                         .to_string(),
                 );
                 cookies.push(HttpCookie { name, value, position });
